@@ -276,11 +276,19 @@ pub fn run_history(id: usize, env: &Env, init_a: &Tree, init_b: &Tree, ops: &[Op
                 let before_a = read_tree(&env.a);
                 let before_b = read_tree(&env.b);
                 let _before_z = env.archive_entries();
+                // everything under $HOME (the recorded state lives in $HOME/.copia/archive: the pair's file, its .bak / .tmp
+                // siblings, other pairs' files), byte for byte, names included
+                let before_home = snapshot(&env.home);
                 // dry run first: prints the plan, must touch nothing (C15 clause, checked here as a sanity oracle)
                 let (_, dry_out, dry_err) = env.bisync(&["--dry-run"], &env.a, &env.b, &[]);
                 plan = parse_plan(&dry_out);
                 if read_tree(&env.a) != before_a || read_tree(&env.b) != before_b {
                     fails.push(format!("{} C15 bisync --dry-run modified a tree", id));
+                }
+                let after_home = snapshot(&env.home);
+                if after_home != before_home {
+                    let names = |v: &Vec<(String, Vec<u8>)>| v.iter().map(|(p, c)| format!("{}({})", p.rsplit('/').next().unwrap_or(p).chars().rev().take(18).collect::<String>().chars().rev().collect::<String>(), c.len())).collect::<Vec<_>>().join(" ");
+                    fails.push(format!("{} C15 bisync --dry-run changed the recorded state under $HOME/.copia (files before: [{}] after: [{}]; archive fault pending: {})", id, names(&before_home), names(&after_home), fault_pending));
                 }
                 let nobase = dry_err.contains("SAFE no-base mode");
                 if fault_pending && !nobase {
